@@ -1379,7 +1379,6 @@ spec:
         // [C17] only whitespace/comment tokens are trimmed, and the result does not start or end with one
         r@.len() > 0 ==> !is_ws_comment(r@[0].kind) && !is_ws_comment(r@.last().kind),
         r@.len() == 0 ==> forall|i: int| 0 <= i < s@.len() ==> is_ws_comment((#[trigger] s@[i]).kind),
-rewrite `s.iter().rposition(not_ws_comment)` => `crate::slice_rposition(s, not_ws_comment)`
 before `let from = match s.iter().position(not_ws_comment) {`:
     proof { lemma_vals_as_ref(s@); lemma_sub_ok(s@, 0, 0); assert(s@.subrange(0, 0) =~= Seq::<Token>::empty()); }
 after `let to = s.iter().rposition(not_ws_comment).unwrap();`:
@@ -1488,8 +1487,6 @@ after `if let Some(sep) = bp.consume(T![%]) {`:
 tags C03 C04 C07 C02
 ret r
 inline or_else 0
-rewrite `bp\n        .tokens()\n        .iter()\n        .any(` => `crate::slice_any(bp.tokens(), `
-rewrite `value_tokens\n            .iter()\n            .rposition(` => `crate::slice_rposition(value_tokens, `
 spec:
     requires old(bp).wf(), old(bp).cur() == 0,
     ensures final(bp).wf(), final(bp).same(old(bp)), only_diags(final(bp).evs(), old(bp).evs()),
@@ -1507,7 +1504,7 @@ before `let value_tokens = bp.consume_while(|t| !matches!(t, T![word]));`:
 after `let value_tokens = bp.consume_while(|t| !matches!(t, T![word]));`:
     let ghost vt0 = value_tokens@;
     let ghost c1 = bp.cur();
-    proof { if vt0.len() > 0 { assert(vt0[0] == bp.toks()[c0]); assert(!is_ws_comment(vt0[0].kind)); } }
+    proof { if vt0.len() > 0 { assert(vt0[0] == bp.toks()[c0]); } }
 before `let unit_tokens = bp.consume_rest();`:
     proof {
         let n = value_tokens@.len() as int;
@@ -1680,7 +1677,6 @@ impl<'t> Body<'t> {
 tags C03 C04 C05 C07
 ret r
 inline or_else 0
-rewrite `quantity\n            .iter()\n            .any(` => `crate::slice_any(quantity, `
 spec:
     requires old(bp).wf(),
     ensures final(bp).wf(), final(bp).same(old(bp)),
@@ -1724,7 +1720,6 @@ spec:
 tags C03 C04 C07 C02
 ret r
 inline then 0
-rewrite `alias_text_tokens.iter().any(` => `crate::slice_any(alias_text_tokens, `
 spec:
     requires old(bp).wf(), toks_ok(tokens@), gbnd(name_offset as int), tokens@.len() > 0 ==> name_offset == tokens@[0].span.s(),
     ensures final(bp).wf(), final(bp).same(old(bp)), final(bp).cur() == old(bp).cur(), only_diags(final(bp).evs(), old(bp).evs()),
@@ -1773,7 +1768,6 @@ tags C03 C04 C05 C07
 ret r
 inline map 0
 inline map 2
-rewrite `modifiers_tokens\n            .iter()\n            .find(` => `crate::slice_find(modifiers_tokens, `
 spec:
     requires old(bp).wf(),
     ensures final(bp).wf(), final(bp).same(old(bp)), only_diags(final(bp).evs(), old(bp).evs()),
@@ -1923,7 +1917,6 @@ spec:
 /*@ fn src/parser/mod.rs parse_multiline_block
 tags C03 C05 C17
 hoist 0
-rewrite `bp.tokens().iter().all(` => `crate::slice_all(bp.tokens(), `
 spec:
     requires old(bp).wf(), old(bp).cur() == 0,   // [C05] the whole block is still unparsed
         old(bp).toks().last().kind != TokenKind::Newline,    // [C03] block splitter trims trailing newlines
